@@ -32,9 +32,11 @@ deriving DecidableEq, Repr
 inductive Status where
   | waiting   -- registered, dependencies > 0
   | queued    -- sent to `executable`
+  | dequeued  -- received by a worker, `e.err.Load()` not done yet   (finest relation only)
   | running   -- body `t.f()` in progress
-  | done      -- body ran, completion section over
-  | skipped   -- dequeued after an error: body not run, completion section over
+  | ending (ran : Bool)  -- body over (or skipped): deregistration / notification pending (finest relation only)
+  | done      -- body ran, `t.executed = true`
+  | skipped   -- dequeued after an error: body not run, `t.executed = true`
 deriving DecidableEq, Repr
 
 inductive Err where
@@ -82,6 +84,15 @@ def init (workers : Nat) : State :=
 /-- `t.executed` -/
 def executed (s : State) (j : Nat) : Bool :=
   s.status j == .done || s.status j == .skipped
+
+/-- the body of the task is over (or will never run): it has returned, or the task was
+skipped. In the coarse relation this coincides with `executed`. -/
+def ended (s : State) (j : Nat) : Bool :=
+  match s.status j with
+  | .ending _ => true
+  | .done => true
+  | .skipped => true
+  | _ => false
 
 def ins (x : Nat) (l : List Nat) : List Nat := if x ∈ l then l else x :: l
 
